@@ -74,7 +74,7 @@ CLAIMED = {
         "asserted, one setter of one family per arm, rejecting else, distinct families); documented values accepted; sibling "
         "setters write the same keys and the literals the documentation states; the caller's dictionary is never written; "
         "the head-count override key round trip for every species column of the table, the other overrides write exactly "
-        "their key with a range check, multipliers scale exactly the yearly ratios; every constant read downstream is "
+        "their key with a range check and are not written again by anything that runs after them (the shut-off setters come first), multipliers scale exactly the yearly ratios; every constant read downstream is "
         "written by every value of its family or read under its flag; the shipped presets are accepted.",
         "CPython string semantics (strip/slicing) as evaluated by the checker; the YAML subset parser. " + TRUST,
         "typestate, dispatch-table, key writer/reader and effect analyses over the ast + README/YAML/CSV-header artefact checks",
@@ -259,7 +259,7 @@ ADDED = {
 }
 ROBUST = (" The rules read a canonical form of the syntax trees (comparison orientation, if/else polarity, else-after-return, keyword/positional "
           "arguments, range(0, n), method values) named tuples, tuple parameters; renamed parameters and methods are read under the names of the reference tree) and statement-level inlined helpers, so behaviour-preserving rewrites do not change the verdict "
-          "(215 sub-agent refactorings, 15 corrected twins of seeded refactorings and 18 kinds of whole-tree probes are replayed by the thorough tier).")
+          "(215 sub-agent refactorings, 16 corrected twins of seeded refactorings and 18 kinds of whole-tree probes are replayed by the thorough tier).")
 
 
 def main():
